@@ -183,4 +183,35 @@ DropLaw(s) ==
      LET g == (i - 1) \div GroupSize
          alone == \A b \in 0..(GroupSize - 1) : Has(s, g, b) => Slot(g, b) = i
      IN SetSize(Without(s, i)) = SetSize(s) - (IF alone THEN 8 ELSE 4)
+
+\* ------------------------------------------------------------------ values too large to travel as JSON
+(* rule = [n_sets, slots, labelled, meta, clips]: n_sets sets, each with its first `slots` slots present,
+   every set labelled or none, meta present or not, `clips` clip names present.  The harness builds the value by
+   this rule; the specification decides from the rule alone what the container header must announce
+   (data size, number of pointer-table entries = string cells, number of labels), and the round trip
+   must succeed whatever these numbers are (2^16 is not a limit of the format). *)
+BigGroups(k) == (k + GroupSize - 1) \div GroupSize
+BigSetSize(rule) == 4 * (1 + BigGroups(rule.slots) + rule.slots)
+BigDataSize(rule) == SetsStart + rule.n_sets * BigSetSize(rule)
+BigStrings(rule) == (IF rule.meta THEN 1 ELSE 0) + rule.clips + rule.n_sets * rule.slots
+BigLabels(rule) == 1 + (IF rule.labelled THEN rule.n_sets ELSE 0)
+\* ev = [rule, len, head (first 32 bytes of the image), status, reparsed_equal, re_same]
+BigHeaderOK(ev) ==
+  /\ Len(ev.head) = 32
+  /\ Rd32(ev.head, 0, "le") = ev.len
+  /\ Rd32(ev.head, 4, "le") = BigDataSize(ev.rule)
+  /\ Rd32(ev.head, 8, "le") = BigStrings(ev.rule)
+  /\ Rd32(ev.head, 12, "le") = BigLabels(ev.rule)
+\* the rule's totals agree with the general definitions (checked on small instances in MC_ASet)
+BigRuleValue(rule, nameOf(_), labelOf(_)) ==
+  [meta |-> IF rule.meta THEN Str(<<114>>) ELSE NoStr,
+   clips |-> [i \in 1..ClipCount |-> IF i <= rule.clips THEN Str(nameOf(i)) ELSE NoStr],
+   sets |-> [k \in 1..rule.n_sets |->
+               [label |-> IF rule.labelled THEN Str(labelOf(k)) ELSE NoStr,
+                slots |-> [i \in 1..SlotCount |-> IF i <= rule.slots THEN Str(nameOf(i)) ELSE NoStr]]]]
+BigRuleLaw(rule) ==
+  LET c == ASetContent(BigRuleValue(rule, LAMBDA i : <<115, 48 + (i % 10)>>, LAMBDA k : <<76, 48 + (k % 10)>>)) IN
+  /\ Len(c.data) = BigDataSize(rule)
+  /\ Len(c.text) = BigStrings(rule)
+  /\ Len(c.labels) = BigLabels(rule)
 =============================================================================
